@@ -12,6 +12,8 @@ import (
 
 	"github.com/sarchlab/akita/v4/simulation"
 	"github.com/sarchlab/mgpusim/v4/amd/driver"
+	"github.com/sarchlab/mgpusim/v4/amd/arch"
+	"github.com/sarchlab/mgpusim/v4/amd/samples/runner/emusystem"
 	"github.com/sarchlab/mgpusim/v4/amd/samples/runner/timingconfig"
 	"github.com/sarchlab/mgpusim/v4/amd/sampling"
 
@@ -163,6 +165,37 @@ func platScenarios() []platScenario {
 			}
 			return nil
 		}},
+		{"buffer-moved-between-kernels", 2, func(p *plat) *platResult {
+			// a kernel touches a buffer, the driver re-homes it (Remap keeps the virtual address and changes the frame),
+			// the host rewrites it, a second kernel writes it, a D2H reads it: the copy must see the second kernel
+			d, c := p.drv, p.ctx
+			n := 8 * dPage // 128 work-groups per copy kernel: every compute unit of the GPU takes part in every launch
+			x, y := pattern(10, n), pattern(11, n)
+			a, b := d.AllocateMemory(c, uint64(n)), d.AllocateMemory(c, uint64(n))
+			d.MemCopyH2D(c, a, x)
+			d.MemCopyD2D(c, b, a, n) // the kernel reads A and writes B
+			out := make([]byte, n)
+			d.MemCopyD2H(c, out, b)
+			if res := p.expect("D2H of a buffer written by a completed kernel", out, x); res != nil {
+				res.Sig = "d2h-misses-kernel-write"
+				return res
+			}
+			d.Remap(c, uint64(b), uint64(n), 2) // B moves to GPU 2
+			d.MemCopyH2D(c, b, pattern(12, n))
+			d.MemCopyD2H(c, out, b)
+			if res := p.expect("D2H(H2D(x)) of a buffer that was moved to another GPU after a kernel had used it", out, pattern(12, n)); res != nil {
+				res.Sig = "round-trip-differs/after-remap"
+				return res
+			}
+			d.MemCopyH2D(c, a, y)
+			d.MemCopyD2D(c, b, a, n) // the kernel writes the moved buffer
+			d.MemCopyD2H(c, out, b)
+			if res := p.expect("D2H of a buffer that was moved to another GPU between two kernels that wrote it", out, y); res != nil {
+				res.Sig = "d2h-misses-kernel-write/after-remap"
+				return res
+			}
+			return nil
+		}},
 		{"distributed-buffer-two-gpus", 2, func(p *plat) *platResult {
 			d, c := p.drv, p.ctx
 			n := 4 * dPage
@@ -203,7 +236,12 @@ func platformWorker(arg string) {
 		}
 		sampling.InitSampledEngine()
 		s := simulation.MakeBuilder().WithoutMonitoring().Build()
-		timingconfig.MakeBuilder().WithSimulation(s).WithNumGPUs(sc.gpus).WithGPUType(gpuType).Build()
+		if gpuType == "emu" {
+			// the emulation platform: direct-storage copy path, emulated compute units
+			emusystem.MakeBuilder().WithSimulation(s).WithNumGPUs(sc.gpus).WithArchitecture(arch.GCN3).Build()
+		} else {
+			timingconfig.MakeBuilder().WithSimulation(s).WithNumGPUs(sc.gpus).WithGPUType(gpuType).Build()
+		}
 		d := s.GetComponentByName("Driver").(*driver.Driver)
 		d.Run()
 		p := &plat{drv: d, ctx: d.Init()}
@@ -259,7 +297,11 @@ func platformPart(r *harness.Run) int {
 	os.MkdirAll(harness.Dir()+"/build/tmp", 0o755)
 	type job struct{ gpuType, name string }
 	var jobs []job
-	for _, t := range []string{"r9nano", "mi300a"} {
+	types := []string{"emu"} // quick: the emulation platform only (seconds)
+	if r.Thorough() {
+		types = []string{"emu", "r9nano", "mi300a"}
+	}
+	for _, t := range types {
 		for _, sc := range platScenarios() {
 			jobs = append(jobs, job{t, sc.name})
 		}
@@ -273,7 +315,11 @@ func platformPart(r *harness.Run) int {
 		}
 		ops[i] = res.Ops
 		if res.Sig != "" {
-			rep(r, "platform/"+res.Sig, res.Msg+"\nscenario: "+jobs[i].name+" on "+jobs[i].gpuType, platCase{Part: "d", Scenario: jobs[i].name, GPUType: jobs[i].gpuType})
+			sig := "platform/" + res.Sig
+			if strings.HasSuffix(res.Sig, "/after-remap") {
+				sig += "/" + jobs[i].gpuType // emulation and timing platforms translate differently (page table vs TLBs)
+			}
+			rep(r, sig, res.Msg+"\nscenario: "+jobs[i].name+" on "+jobs[i].gpuType, platCase{Part: "d", Scenario: jobs[i].name, GPUType: jobs[i].gpuType})
 		}
 		fmt.Printf("(d) %-8s %-42s checks=%d %s\n", jobs[i].gpuType, jobs[i].name, res.Ops, res.Sig)
 	})
@@ -294,7 +340,11 @@ func platformReplay(r *harness.Run, c json.RawMessage) {
 	}
 	fmt.Printf("scenario %s on %s: checks=%d sig=%q %s\n", pc.Scenario, pc.GPUType, res.Ops, res.Sig, res.Msg)
 	if res.Sig != "" {
-		rep(r, "platform/"+res.Sig, res.Msg, pc)
+		sig := "platform/" + res.Sig
+		if strings.HasSuffix(res.Sig, "/after-remap") {
+			sig += "/" + pc.GPUType
+		}
+		rep(r, sig, res.Msg, pc)
 	}
 }
 
